@@ -170,6 +170,22 @@ def run(ctx):
     bdir = enet.binaries(ctx)
     n = 14 if ctx.quick else 120
     bad = 0
+    # witness of the recorded finding C09:rank-decision-depends-on-sigma-apr (run first, every time): the same file under
+    # envelope and svd; reported (as the known finding) only while they disagree
+    import os
+    wf = os.path.join(vlib.VERIF, "corpus", "directed", "k_sigma_apr_small.gkf")
+    if os.path.exists(wf):
+        wtxt = open(wf).read()
+        ow, _ = enet.run_all(ctx, bdir, wtxt, "c09_witness", algs=["envelope", "svd"])
+        ctx.count(("c09-witness", wtxt), nontrivial=True)
+        if enet.adjusted_ok(ow["envelope"]) and enet.adjusted_ok(ow["svd"]):
+            ma, mb = gama.adjusted_map(ow["envelope"]["res"]), gama.adjusted_map(ow["svd"]["res"])
+            dw = ["%s %s: %.7f (envelope) vs %.7f (svd)" % (p_, c_, ma.get(p_, {}).get(c_, float("nan")), mb[p_][c_])
+                  for p_ in mb for c_ in "xyz" if c_ in mb[p_] and not abs(ma.get(p_, {}).get(c_, 1e99) - mb[p_][c_]) <= 3e-6]
+            if dw or ow["envelope"]["res"]["dof"] != ow["svd"]["res"]["dof"]:
+                ctx.violation({"kind": "E:sigma-apr", "gkf": wtxt, "differences": dw[:6], "dof": [ow["envelope"]["res"]["dof"], ow["svd"]["res"]["dof"]]},
+                              "sigma-apr = 0.001: envelope and svd adjust the same file differently: %s" % (dw[:1] or ["degrees of freedom"])[0],
+                              key="C09:rank-decision-depends-on-sigma-apr")
     for t in range(n):
         kind = ctx.rng.choice(["2d-fixed", "2d-fixed", "2d-free", "3d-fixed", "lev-fixed", "lev-free", "3d-free"])
         net, truth, meta = enet.varied_network(ctx.rng, kind)
@@ -239,8 +255,7 @@ def run(ctx):
         net2 = copy.deepcopy(net)
         net2["params"]["sigma-apr"] = sigma_apr * k
         o2, txt2 = enet.run_all(ctx, bdir, net2, "c09s_%d" % t, algs=[alg])
-        if enet.adjusted_ok(o2[alg]):
-            r2 = o2[alg]["res"]
+        def relation(r2):
             d2 = []
             # v'Pv in units of sigma-apr^2: P = (m0/sigma)^2 -> factor k^2
             if abs(r2["ssq"] - res["ssq"] * k * k) > 5e-6 * max(1.0, r2["ssq"]):
@@ -259,10 +274,21 @@ def run(ctx):
                         break
             if res["dof"] > 0 and abs(r2["stdev"]["ratio"] - res["stdev"]["ratio"]) > 1.1e-3:
                 d2.append("ratio m0'/m0 changed: %.3f vs %.3f" % (res["stdev"]["ratio"], r2["stdev"]["ratio"]))
+            return d2
+        if enet.adjusted_ok(o2[alg]):
+            d2 = relation(o2[alg]["res"])
             if d2:
-                bad += 1
-                ctx.violation({"kind": "E:sigma-apr", "gkf": txt, "gkf_scaled": txt2, "k": k, "algorithm": alg, "differences": d2[:8]},
-                              "scaling sigma-apr by %g changed more than v'Pv: %s" % (k, d2[0]))
+                # the recorded weakness C02:rank-tolerances-are-absolute seen through this relation: with very small (large)
+                # weights the absolute pivot tolerances of cholesky / envelope / gso declare a regular network singular (miss a
+                # singularity); recognised only when svd, on the same scaled input, satisfies the relation
+                key = None
+                if alg != "svd":
+                    o3, _ = enet.run_all(ctx, bdir, net2, "c09v_%d" % t, algs=["svd"])
+                    if enet.adjusted_ok(o3["svd"]) and not relation(o3["svd"]["res"]):
+                        key = "C09:rank-decision-depends-on-sigma-apr"
+                if ctx.violation({"kind": "E:sigma-apr", "gkf": txt, "gkf_scaled": txt2, "k": k, "algorithm": alg, "differences": d2[:8]},
+                                 "scaling sigma-apr by %g changed more than v'Pv: %s" % (k, d2[0]), key=key) is not False:
+                    bad += 1
         if bad >= 4:
             break
     ctx.obligation(bad == 0, "E:statistics")
